@@ -194,3 +194,23 @@ Theorem c06_operator_sources_have_the_model_shape :
           ["$addsub_fun"; "$addsubassign_fun"; "$muldiv_fun"; "rem"; "rem_assign"; "eq"; "partial_cmp"; "lt"; "le"; "gt"; "ge"; "hypot"; "mul_add"; "from"; "add"]%string
      && (30 <=? List.length src_ops)%nat = true.
 Proof. split; [exact operator_sources_have_the_model_shape|exact operator_table_covers]. Qed.
+
+(* fused multiply-add with the multiplier a and the addend b in two other base-unit sets: ONE rounding of x a' + b' *)
+Theorem c06_float_mixed_muladd_accuracy :
+  forall prec emax (Hprec : Prec_gt_0 prec) (Hmax : Prec_lt_emax prec emax) lib
+         (U Ua Ub : list (binary_float prec emax)) (da ds : list Z) (x a b : binary_float prec emax),
+    let ta := change_base_tree prec emax Hprec Hmax lib U Ua da a in
+    let tb := change_base_tree prec emax Hprec Hmax lib U Ub ds b in
+    let Ea := (H prec ^ ops prec emax ta - 1)%R in let Eb := (H prec ^ ops prec emax tb - 1)%R in
+    let A := rebase_R prec emax Hprec Hmax lib U Ua da a in let B := rebase_R prec emax Hprec Hmax lib U Ub ds b in
+    let a' := change_base (CFfloat prec emax Hprec Hmax lib) U Ua da a in
+    let b' := change_base (CFfloat prec emax Hprec Hmax lib) U Ub ds b in
+    let X := (B2R x * A + B)%R in
+    let res := q_muladd (StF prec emax Hprec Hmax lib) (ffma prec emax Hprec Hmax) true U Ua Ub da ds x a b in
+    Safe prec emax Hprec Hmax ta -> Safe prec emax Hprec Hmax tb -> is_finite x = true ->
+    normal prec emax (B2R x * B2R a' + B2R b')%R ->
+    is_finite res = true /\ (Rabs (B2R res - X) <= u prec * Rabs X + (1 + u prec) * (Ea * Rabs (B2R x * A) + Eb * Rabs B))%R.
+Proof.
+  intros prec emax Hprec Hmax lib U Ua Ub da ds x a b ta tb Ea Eb A B a' b' X res Sa Sb Fx Nrm.
+  exact (mixed_muladd_abserr prec emax Hprec Hmax lib U Ua Ub da ds x a b Sa Sb Fx Nrm).
+Qed.
